@@ -91,6 +91,35 @@ const vc04Tail = "{{ 1 }}{{ 1 }}{{ 1 }}{{ 1 }}{{ 1 }}{{ 1 }}{{ 1 }}{{ 1 }}{{ 1 }
 func vh_c04_build_leak1_q() { vc04_build("{{ ", " }}"+vc04Tail, 2) }
 func vh_c04_build_leak2_q() { vc04_build("{% switch %}", "{% end %}"+vc04Tail, 2) }
 func vh_c04_build_leak3_q() { vc04_build("{% extends \"l.html\" %}", vc04Tail, 2) }
+// labelled break, continue and goto statements build (or are rejected with a
+// *BuildError): no internal error out of BuildTemplate. Known finding on the
+// current tree for continue: see known_findings.json.
+func vc04_build_labelled() {
+	kw := []string{"break L", "continue L", "goto L", "break", "continue"}[vsym_choice(5)]
+	inner := []string{"", "{% for j := 0; j < 2; j++ %}", "{% switch %}{% default %}", "{% for _, j := range sl %}"}[vsym_choice(4)]
+	end := ""
+	if inner != "" {
+		end = "{% end %}"
+	}
+	outer := []string{"{% L: for i := 0; i < 2; i++ %}", "{% L: for _, i := range sl %}"}[vsym_choice(2)]
+	src := "{% sl := []int{1, 2} %}" + outer + inner + "{% " + kw + " %}" + end + "{% end %}"
+	var err error
+	var rec any
+	func() {
+		defer func() { rec = recover() }()
+		_, err = BuildTemplate(Files{"index.txt": []byte(src)}, "index.txt", nil)
+	}()
+	vassert(rec == nil, "labelled-statement-builds-without-an-internal-error")
+	if err != nil {
+		_, ok := err.(*BuildError)
+		vassert(ok, "error-is-a-BuildError")
+		vreach("rejected")
+		return
+	}
+	vreach("built")
+}
+
+func vh_c04_build_labelled_q() { vc04_build_labelled() }
 func vh_c04_build_multi_q() { vc04_build_multi() }
 func vh_c04_build_show_q() { vc04_build("{{ ", " }}", 2) }
 func vh_c04_build_stmt_q() { vc04_build("{% ", " %}", 2) }
